@@ -25,10 +25,40 @@ PLAN = dict(
          "(^01, ^80, 00, FF) and every truncation of the DER signature, h, S, the ten ciphertexts (5 modes x raw/ASN.1), wrapped keys "
          "(raw/DER) and the four key-exchange messages, identity mutants excluded, expected verdicts from the reference accept set, "
          "plus wrong uid / hid / message / key. A case is distinct by its class key (configuration | kind / uid mod 64 / hid / KDF "
-         "block class / mode / encoding / artefact chunk).",
+         "block class / mode / encoding / artefact chunk). "
+         "c10.reuse (input-buffer independence and object histories of EVERY operation on long-lived key objects): the caller keeps uid, "
+         "message, signature / ciphertext / received protocol message in ONE arena (fields at fixed offsets, every argument a sub-slice "
+         "whose dirty spare capacity runs on into the caller's other data), overwrites the fields in place between calls and overwrites "
+         "every slice a call returned (and every Bytes()/MarshalASN1 output of the key objects) before the next call; the whole arena is "
+         "compared with its state before each call (no write inside or behind an argument); ONE master key / verifier / sender object and "
+         "ONE key object per user serve the whole history, built in every way the API offers (generated, Public(), parsed from raw / DER / "
+         "compressed bytes held in the arena and overwritten after the parse, MasterPublic() of a user key, master keys re-parsed from DER); "
+         "identities (and signed messages) come from pools related in every way a cache key can get wrong - same length other content, same "
+         "but one bit, proper prefix longer / shorter than the predecessor in the same buffer (now and then the empty uid), same uid under "
+         "another hid - and every history walks an Eulerian circuit through ALL ordered pairs (previous, next) of the pool. bufsign: user "
+         "keys through the reused uid buffer (twice, = [t2]P1 with the reference H1, Equal true / false), signatures by three entry points "
+         "over messages in the arena (made-for established by the reference verifier), then 61 verifications by three entry points in which "
+         "(claimed uid+hid, signature, message) are replaced one field at a time in all six orders: accepted exactly when all three belong "
+         "to one identity. bufenc: wrap (three APIs) / encrypt (five modes, three entry points, nil / private / package-level option objects) "
+         "for the identity just written over the previous one - the result must be the reference's for THAT identity (KDF(C||e(C,de)||ID), "
+         "reference decryption) - opened from the arena by that identity's key object (six decrypt entry points, ONE DecrypterOptsWithUID "
+         "object), a second message of the same length through the same message and ciphertext buffers, the key object's previous ciphertext "
+         "written over the current one, and refused by the previous identity's key object after the uid buffer went back. bufkex: twelve "
+         "sequential key exchanges (all ordered pairs of four identities) on long-lived user keys, each party's uids and received RA / RB / "
+         "SB / SA in its own reused arena, with and without confirmation / Destroy, every session equal to the reference for ITS identities "
+         "and messages. (The unchanged library's exchange OBJECT keeps the caller's uid / RA slices and hands out its own RA / RB slice, and "
+         "its block-mode options append the padding in the caller's spare capacity behind the plaintext: four probe sessions and a precise "
+         "matcher COUNT this as observed_* events, it is not judged.) options (rarely used API found with tools/cover.py): master scalars "
+         "scripted to N - H1(ID||hid), the one identity per master key without a user key - GenerateUserKey refuses it twice (both key types) "
+         "and goes on serving other identities, signatures do not verify under it (its public key is the point at infinity); option objects "
+         "built with the public constructors for AES-128/192/256 (crypto/aes) and SM4 x PKCS#7 / ANSI X9.23 / ISO 9797-1 M2 padding x four "
+         "block modes against a reference of ref KDF / MAC + crypto/cipher + ref/pad and back through the raw decrypt entry points, one altered "
+         "bit refused; EncryptPrivateKey.Decrypt option values as its doc comment states them (DecrypterOptsWithUID with / without "
+         "EncrypterOpts on ASN.1 and raw ciphertexts, other option types refused, nil / empty uid through the exported struct).",
     jobs=both("c10.transcript", _ALL, shards=(3, 9), floor=600)
          + both("c10.keys", ["avx2", "avx", "noadx", "purego", "ia32"], shards=(1, 4), floor=36)
-         + both("c10.sound", ["avx2", "purego"], shards=(4, 16), floor=100),
+         + both("c10.sound", ["avx2", "purego"], shards=(4, 16), floor=100)
+         + both("c10.reuse", ["avx2", "sse", "purego", "ia32"], shards=(2, 8), floor=50),
     assumptions=[
         "reference H1/H2/KDF/MAC/mode/DER/G1 code in harness/ref/sm9 is right (self-validated against the GM/T 0044.5 annex A-D values "
         "carried by the repository tests, CBC/CFB/OFB against crypto/cipher over the reference SM4)",
@@ -46,9 +76,18 @@ CLAIM = dict(
          "reference model of everything around the pairing (so a self-consistent but wrong KDF/hash is caught inside one build) and by "
          "byte-exact cross-configuration digests; every single-byte substitution and truncation of signatures, ciphertexts, wrapped keys "
          "and key-exchange messages of the sampled rounds is refused (or decrypts to the same plaintext); all key encodings parse back. "
-         "Exploration: held on the cases listed, not proven.",
+         "Input-buffer independence and object histories (c10.reuse, configurations AVX2, SSE, pure Go, 32-bit): user key generation, "
+         "signing, verification, wrap / unwrap, encrypt / decrypt in all modes and encodings and sequential key exchanges run on long-lived "
+         "key objects (generated, parsed, derived) with every argument held in one reused arena that is overwritten in place between calls "
+         "and every returned slice overwritten, over all ordered pairs of related identities (same length, one bit apart, prefixes, same uid "
+         "under another hid): each step is decided by ground truth - a signature verifies only under the identity and message it was made "
+         "for, a ciphertext / wrapped key is the reference's for the identity named in THIS call and opens only with that identity's key, "
+         "each exchange gives the reference key for its own identities - and the library never writes into the caller's memory; plus the "
+         "identity without a user key (t1 = 0), option objects for other ciphers / key sizes / paddings and the documented option values of "
+         "EncryptPrivateKey.Decrypt. Exploration: held on the cases listed, not proven.",
     design_ref="DESIGN.md 6 (C10)",
     note="trusted: harness/ref/sm9 (+ref/sm3, ref/sm4), Go standard library, the library's bn256 pairing/G2/GT arithmetic as used by the "
          "model (property C09); no independent pairing implementation",
-    technique="scripted-randomness transcript + differential reference model + cross-configuration digests + exhaustive single-byte mutation sweep",
+    technique="scripted-randomness transcript + differential reference model + cross-configuration digests + exhaustive single-byte mutation sweep "
+              "+ reused-arena / long-lived-object histories decided by ground truth",
 )
